@@ -150,3 +150,55 @@ Example C12_refresh_is_not_identity :
 Proof. split; vm_compute; reflexivity. Qed.
 Example C12_stale_projection_refused : fresh_checker stale_example = false.
 Proof. exact stale_example_refused. Qed.
+
+(** * Observer options: verbosity (strengthening driven by seeds F3-I and F6-J; Model/Observers.v,
+      Proofs/SetupObsP.v, Proofs/ObserversP.v, per-run obligations in Proofs/ObserversMainP.v)
+
+    translate/mainloop2coq.py follows `opts.getVerbosity()` through main(): every `if` whose condition reads
+    it is an observer-guarded statement; its statements are classified (const member function of an outside
+    object / call of the model / `getPastModulation()` / non-const member function / assignment to an outside
+    variable that is not report-only / anything else); a read of the verbosity anywhere else fails the
+    translation.  Set-up: the guarded statements stay in the skeleton, [setup_observer_conds] are the
+    conditions, [setup_pure_opaque] the statements and conditions found free of effects.
+    (1) The generated skeleton passes [obs_chk] (under a verbosity test: pure statements and pure conditions only -
+    no call of the driver model, no hook point, no return, no `Display::abort = true`), hence: for every kernel
+    record, signal schedule, configuration, state and every two environments of opaque statements that differ in
+    the VALUES OF THE VERBOSITY TESTS only - pure statements leave the model's state alone and do not throw -
+    the set-up ends the same way in the same state, and so does the whole program: the start state of the
+    simulation does not depend on the verbosity. *)
+From Inovesa Require Import Model.Observers Proofs.SetupObsP Proofs.ObserversP Proofs.ObserversMainP.
+
+Theorem C12_setup_observers_pure :
+  obs_chk setup_observer_conds setup_pure_opaque main_setup = true /\
+  forall (K : kern) (sig : Z -> bool) (cf : cfg) (ev1 ev2 : senv K),
+    pure_env setup_pure_opaque ev1 -> pure_env setup_pure_opaque ev2 ->
+    same_but_observers setup_observer_conds ev1 ev2 ->
+    forall s : st K,
+      sexec sig ev1 cf main_setup s = sexec sig ev2 cf main_setup s /\
+      full_run sig ev1 cf main_setup main_prog s = full_run sig ev2 cf main_setup main_prog s.
+Proof. exact (conj main_setup_observers_checked (fun K => main_setup_observers_pure K)). Qed.
+Print Assumptions C12_setup_observers_pure.
+
+(** (2) The observer-guarded statements of the simulation part (they are not part of [main_prog]: the driver
+    model has no verbosity) pass [observers_pure]: each of them, executed in any state of the model, whatever
+    the unclassified effects [unk] would do, leaves the state as it is.  `getPastModulation()` counts with the
+    effect translate/dynqueue2coq.py reads off its body ([main_getpast]). *)
+Theorem C12_loop_observers_pure :
+  observers_pure main_getpast loop_observers = true /\
+  forall (K : kern) (sig : Z -> bool) (cf : cfg) (junk : list (tMd K)) (unk : String.string -> st K -> st K) (o : ostmt) (s : st K),
+    In o loop_observers -> oexec_stmt sig cf junk main_getpast unk o s = s.
+Proof. exact (conj main_loop_observers_checked (fun K => main_loop_observers_pure K)). Qed.
+Print Assumptions C12_loop_observers_pure.
+
+(** non-vacuity: main() does test the verbosity in its set-up; the hypotheses are satisfiable by two
+    environments that answer those tests differently; a verbosity test whose branch refreshes the cached
+    profile and integrates (seed F3-I in miniature) is refused *)
+Example C12_setup_has_observers : (1 <=? Z.of_nat (obs_count setup_observer_conds main_setup)) = true.
+Proof. exact main_setup_has_observers. Qed.
+Example C12_observer_hypotheses_satisfiable :
+  pure_env setup_pure_opaque (idle_env unitK true) /\ pure_env setup_pure_opaque (idle_env unitK false) /\
+  same_but_observers setup_observer_conds (idle_env unitK true) (idle_env unitK false) /\
+  cnd (idle_env unitK true) (hd 0 setup_observer_conds) <> cnd (idle_env unitK false) (hd 0 setup_observer_conds).
+Proof. split; [apply idle_env_pure | split; [apply idle_env_pure | split; [apply idle_envs_differ_in_observers | vm_compute; discriminate]]]. Qed.
+Example C12_impure_observer_refused : obs_chk [1] [1; 3] impure_observer_example = false.
+Proof. exact impure_observer_example_refused. Qed.
